@@ -24,11 +24,15 @@ struct Opt {
     skip_enc: bool,
     skip_sig: bool,
     list_only: bool,
+    /// RebuildOptions::preserve_order (the default is true)
+    keep_order: bool,
+    /// no explicit target and preserve_format off: the tool picks the version itself
+    modernize: bool,
 }
 
 impl Opt {
     fn class(&self) -> String {
-        format!("t{}|c{}|b{}|v{}|se{}|ss{}|lo{}", self.target.map(|t| t.to_string()).unwrap_or("-".into()), self.comp.map(|c| format!("{c:02x}")).unwrap_or("-".into()), self.block.map(|b| b.to_string()).unwrap_or("-".into()), self.verify as u8, self.skip_enc as u8, self.skip_sig as u8, self.list_only as u8)
+        format!("t{}|c{}|b{}|v{}|se{}|ss{}|lo{}|o{}|m{}", self.target.map(|t| t.to_string()).unwrap_or("-".into()), self.comp.map(|c| format!("{c:02x}")).unwrap_or("-".into()), self.block.map(|b| b.to_string()).unwrap_or("-".into()), self.verify as u8, self.skip_enc as u8, self.skip_sig as u8, self.list_only as u8, self.keep_order as u8, self.modernize as u8)
     }
     fn to_options(&self) -> RebuildOptions {
         let mut o = RebuildOptions::default();
@@ -47,6 +51,10 @@ impl Opt {
         o.skip_encrypted = self.skip_enc;
         o.skip_signatures = self.skip_sig;
         o.list_only = self.list_only;
+        o.preserve_order = self.keep_order;
+        if self.target.is_none() && self.modernize {
+            o.preserve_format = false;
+        }
         o
     }
 }
@@ -74,6 +82,8 @@ fn main() {
             skip_enc: rng.chance(1, 4),
             skip_sig: !rng.chance(1, 3),
             list_only: rng.chance(1, 10),
+            keep_order: (idx / 20) % 3 != 0,
+            modernize: (idx / 20) % 2 == 1,
         };
         // file set: C01 generator (includes a zero-length file, multi-sector files) with "random"-class files made mildly
         // compressible so that the bomb-ratio finding (C03) does not intrude; a second group of files is encrypted
